@@ -820,7 +820,7 @@ func enumerateC10(thorough bool, f func(idx int64, c c10Case)) int64 {
 							s[i], s[i+1] = s[i+1], s[i]
 							emit("swap", s)
 						}
-						if thorough {
+						{ // two insertions (both tiers: a rejected copy must not make a later copy acceptable)
 							seen := map[string]bool{}
 							for _, s1 := range one {
 								for _, s2 := range insertions(s1) {
@@ -861,7 +861,7 @@ func mainC10() {
 		return
 	}
 	thorough := evid.Thorough()
-	r.Rule("real gopcua sender -> capturing TCP proxy -> real gopcua receiver; every history of n<=4 secured chunks (every composition of n into messages of 1..4 chunks) x {unmodified; a verbatim copy of chunk i inserted at every later position (thorough: every result of two such insertions); every swap of two adjacent chunks} x {Sign, SignAndEncrypt} x {client->server (server-kind receiver), server->client (client-kind receiver)} x policies; counted as non-trivial and distinct: (direction, policy, mode, history, delivered index sequence) of every modified history")
+	r.Rule("real gopcua sender -> capturing TCP proxy -> real gopcua receiver; every history of n<=4 secured chunks (every composition of n into messages of 1..4 chunks) x {unmodified; a verbatim copy of chunk i inserted at every later position; every result of two such insertions; every swap of two adjacent chunks} x {Sign, SignAndEncrypt} x {client->server (server-kind receiver), server->client (client-kind receiver)} x policies; counted as non-trivial and distinct: (direction, policy, mode, history, delivered index sequence) of every modified history")
 	total := enumerateC10(thorough, func(int64, c10Case) {})
 	r.Set("cases_enumerated", total)
 	deaths := evid.Sharded(r, 2<<30, func(s evid.ShardInfo, w *evid.Run) {
